@@ -121,7 +121,11 @@ def run(chk):
             X = B.T.copy()
             mm = m if bk != "SVD" else max(1, min(m, n) - (1 if min(m, n) > 1 else 0))
             try:
-                mdl = SSPOR(basis=impl.make_basis({"kind": bk, "n_basis_modes": mm}), optimizer=QR())
+                # any of the three optimizers in its unconstrained form, and any requested sensor count (also below the mode count):
+                # the leading min(n, modes) ranked sensors must be the greedy ranking of the model's OWN basis matrix as it is after the fit
+                omk = [lambda: QR(), lambda: CCQR(), lambda: GQR()][int(rng.integers(0, 3))]
+                ns_req = None if rng.random() < 0.5 else int(rng.integers(1, n + 1))
+                mdl = SSPOR(basis=impl.make_basis({"kind": bk, "n_basis_modes": mm}), optimizer=omk(), n_sensors=ns_req)
                 impl.quiet(mdl.fit, X, quiet=True, seed=1)
                 Bs = np.array(mdl.basis_matrix_)
                 runs["SSPOR:" + bk] = ([int(i) for i in mdl.ranked_sensors_], Bs)
